@@ -4,6 +4,7 @@ go 1.23.0
 
 require (
 	github.com/matrix-org/gomatrixserverlib v0.0.0
+	github.com/miekg/dns v1.1.66
 	github.com/sirupsen/logrus v1.9.3
 	golang.org/x/crypto v0.38.0
 	gopkg.in/macaroon.v2 v2.1.0
@@ -19,6 +20,7 @@ require (
 	github.com/tidwall/pretty v1.2.1 // indirect
 	github.com/tidwall/sjson v1.2.5 // indirect
 	golang.org/x/exp v0.0.0-20220827204233-334a2380cb91 // indirect
+	golang.org/x/net v0.40.0 // indirect
 	golang.org/x/sys v0.33.0 // indirect
 )
 
